@@ -340,6 +340,9 @@ def env_objects(loc, seed):
         b = fpeps.EnvBP(psi)
         b.iterate_(max_sweeps=2)
         out.append((f'EnvBP:{dims}:{bnd}', b, psi))
+        b2 = fpeps.EnvBP(psi, which='NN+BP')
+        b2.iterate_(max_sweeps=1)
+        out.append((f'EnvBP:{dims}:{bnd}:NN+BP', b2, psi))
         if bnd == 'obc':
             m = fpeps.EnvBoundaryMPS(psi, opts_svd={'D_total': 16}, setup='lrtb')
             out.append((f'EnvBoundaryMPS:{dims}:{bnd}', m, psi))
@@ -370,6 +373,8 @@ def same_env(a, b, what, legacy=False):
         return f"{what}: restored object is {type(b).__name__}, not {type(a).__name__}"
     if not (a.geometry == b.geometry):
         return f"{what}: geometry differs"
+    if not legacy and getattr(a, 'which', None) != getattr(b, 'which', None):
+        return f"{what}: which = {getattr(b, 'which', None)!r} instead of {getattr(a, 'which', None)!r}"
     ka = a.psi.ket if isinstance(a.psi, fpeps.Peps2Layers) else a.psi
     kb = b.psi.ket if isinstance(b.psi, fpeps.Peps2Layers) else b.psi
     m = same_peps(ka, kb, f"{what}: psi")
